@@ -13,7 +13,7 @@ CLAIMS = {
     "C02": (
         'model_checking',
         'explicit-state BFS over call histories of the real Sequence; model-free invariants on every transition',
-        'All histories up to depth 3-5 (per world, see evidence) over a 30-33 op timing alphabet (add x 3 protocols, delay, target, align, phase_shift, EOM and DMM ops, failing calls) on 8-10 channel configurations (incl. DMM declared first, two locals, and a fall-tail world: several idle slots of lengths around the rise time between a pulse and every consumer of its pending fall time, depth 4; two deep-root worlds starting from 9- and 16-call programs inside / after an EOM block; an EOM slower than its channel; an SLM mask in Ising mode; a maximum duration below the waits the channel needs) are executed on the real Sequence; tiling, clock alignment, minimum durations, prefix stability, reported durations and agreement of the three timeline views (schedule, str, sampler) are checked on every transition. Per-channel parameter overrides give a world in which two channels of one basis have clocks 1 and 4 (a phase barrier off the other grid). Worlds with a minimum duration that is not a multiple of the clock (automatic waits at or below the minimum) and with a never-targeted Local channel (no slot at all). EOM buffer times given by the device (custom_buffer_time) that sit off the clock grid or below the minimum duration, played as detuned idle pulses.',
+        'All histories up to depth 3-5 (per world, see evidence) over a 30-33 op timing alphabet (add x 3 protocols, delay, target, align, phase_shift, EOM and DMM ops, failing calls) on 8-10 channel configurations (incl. DMM declared first, two locals, and a fall-tail world: several idle slots of lengths around the rise time between a pulse and every consumer of its pending fall time, depth 4; two deep-root worlds starting from 9- and 16-call programs inside / after an EOM block; an EOM slower than its channel; an SLM mask in Ising mode; a maximum duration below the waits the channel needs) are executed on the real Sequence; tiling, clock alignment, minimum durations, prefix stability, reported durations and agreement of the three timeline views (schedule, str, sampler) are checked on every transition. Per-channel parameter overrides give a world in which two channels of one basis have clocks 1 and 4 (a phase barrier off the other grid). Worlds with a minimum duration that is not a multiple of the clock (automatic waits at or below the minimum) and with a never-targeted Local channel (no slot at all). EOM buffer times given by the device (custom_buffer_time) that sit off the clock grid or below the minimum duration, played as detuned idle pulses. The timing alphabet carries refused delays at rest on both channels: a failing call may neither remove nor add a slot.',
         'Bounded depth and alphabet; Pulse.fall_time trusted for the pending-fall-time clause (decided separately by C14).',
         'DESIGN.md §3 C02',
     ),
@@ -27,7 +27,7 @@ CLAIMS = {
         "None/8/30 MHz, mixed per-channel bandwidths): every accepted add / "
         "align / delay is compared with RefSched's earliest admissible start; min-delay / wait-for-all lower bounds, the "
         "phase-shift barrier, exactness of no-delay, estimate_added_delay == inserted delay (and purity) and align's common end "
-        "are checked model-free on every transition. One world has clocks 1 vs 4 on one basis. min-delay / wait-for-all starts and at-rest alignments are also compared with a fall-time lower bound computed from the scheduled samples alone (documented Gaussian filter), with pulses whose amplitude ends smoothly while the detuning starts flat and ends high; one world has a minimum duration off the clock grid.",
+        "are checked model-free on every transition. One world has clocks 1 vs 4 on one basis. min-delay / wait-for-all starts and at-rest alignments are also compared with a fall-time lower bound computed from the scheduled samples alone (documented Gaussian filter), with pulses whose amplitude ends smoothly while the detuning starts flat and ends high; one world has a minimum duration off the clock grid. The reference comparison includes where the phase-shift barrier sits (each atom's last-used time and shift times, also after DMM pulses and phase shifts).",
         "Fall times of scheduled pulses are trusted inputs (C14). Detuned EOM idle slots on other channels may or may not count "
         "as pulses (both accepted). Bounded depth/alphabet.",
         "DESIGN.md §3 C03, Appendix A",
@@ -57,7 +57,7 @@ CLAIMS = {
     "C09": (
         'fault_enumeration',
         'explicit-state BFS over valid call histories x exhaustive invalid-call and read-only menus at every reachable state; full-snapshot equality before/after; differential rebuild oracles',
-        "Every state reachable by <= 2-4 valid calls (16-op core incl. EOM, DMM, variables, measure; XY world and a fresh sequence whose mode is still undetermined separately) is hit with each of 78 invalid calls (93 with the menus of the XY world and of a fresh, channel-less sequence) (one per failure cause and operation: durations, limits, targets, channels, names, modes incl. mode refusals of calls that carry a variable, protocols, over-long sequence via each op, foreign/unknown variables, calls after measure) and 14 read-only operations (str, sample +- modulation, draw with every flag, durations, phase refs, delay estimates, both serialisers, observers, build); a refused or read-only call must leave the full snapshot (timeline, EOM blocks, phase references, mode flags, call log) identical; every state must equal its build() copy, its switch_register(same register) copy, its switch_device(renamed identical device) copy and, up to depth 2-3, its abstract-repr round trip; every copy then receives calls of every kind (variable declaration, pulses, delays, phase shifts, align, channel declaration, measure) and the original must keep its full snapshot; finally the caller edits every list object it passed as an argument (targets, SLM qubits) and the record of calls and its replay must not follow. Attributes of the sequence that the snapshot does not know by name are carried generically, so a cache written by a read-only call is a state change. A copy that raises is named after the first prefix of the history after which it raises. Worlds: a channel-less sequence on non-reusable channels (DMM id taken by a pending SLM mask), an SLM mask on a DMM with stricter duration limits than the Global channel. Containers passed positionally and by keyword (target(qubits=[...]), config_slm_mask(qubits=[...])) and edited by the caller afterwards. A world in which every id collection is handed over as a dict view (keys()), which is a valid Collection that cannot be copied. A world in which every id collection is the caller's own set, edited after the call.",
+        "Every state reachable by <= 2-4 valid calls (16-op core incl. EOM, DMM, variables, measure; XY world and a fresh sequence whose mode is still undetermined separately) is hit with each of 78 invalid calls (93 with the menus of the XY world and of a fresh, channel-less sequence) (one per failure cause and operation: durations, limits, targets, channels, names, modes incl. mode refusals of calls that carry a variable, protocols, over-long sequence via each op, foreign/unknown variables, calls after measure) and 14 read-only operations (str, sample +- modulation, draw with every flag, durations, phase refs, delay estimates, both serialisers, observers, build); a refused or read-only call must leave the full snapshot (timeline, EOM blocks, phase references, mode flags, call log) identical; every state must equal its build() copy, its switch_register(same register) copy, its switch_device(renamed identical device) copy and, up to depth 2-3, its abstract-repr round trip; every copy then receives calls of every kind (variable declaration, pulses, delays, phase shifts, align, channel declaration, measure) and the original must keep its full snapshot; finally the caller edits every list object it passed as an argument (targets, SLM qubits) and the record of calls and its replay must not follow. Attributes of the sequence that the snapshot does not know by name are carried generically, so a cache written by a read-only call is a state change. A copy that raises is named after the first prefix of the history after which it raises. Worlds: a channel-less sequence on non-reusable channels (DMM id taken by a pending SLM mask), an SLM mask on a DMM with stricter duration limits than the Global channel. Containers passed positionally and by keyword (target(qubits=[...]), config_slm_mask(qubits=[...])) and edited by the caller afterwards. A world in which every id collection is handed over as a dict view (keys()), which is a valid Collection that cannot be copied. A world in which every id collection is the caller's own set, edited after the call. Refused delays at rest (negative, below the minimum, above the maximum, over-long) on both channels.",
         'Known findings (non-atomic multi-step operations under max_sequence_duration, declare_channel with a bad initial target) are listed in known_findings.json. Bounded depth; fault menu as listed in mc/props/c09.py.',
         'DESIGN.md §3 C09',
     ),
@@ -73,7 +73,7 @@ CLAIMS = {
         "Sequence and accept/refuse plus the observers (declared/available channels, is_parametrized, is_measured, "
         "is_in_eom_mode) must agree, after accepted calls with the model's post-state and after refused calls with its pre-state "
         "(a refusal keeps the mode) (quick: 4000-state cap per device, reported as not exhaustive; thorough: to fixpoint). Concrete BFS to depth 3-4 on three worlds groups histories by model "
-        "mode and requires identical accept vectors inside a group.",
+        "mode and requires identical accept vectors inside a group. Engine 3: 3 roots (concrete, concrete after ops, already parametrized) x 5 calls x 11 ways of handing a variable over (bare, list, tuple, set, frozenset, dict, dict key / value views, deque, object array, by keyword): accepted, parametrized afterwards, stored, inspection refused - whatever the container.",
         "Arguments are value-valid so only the mode can cause refusals; data-dependent cases are left undecided by the model "
         "(listed in mc/typestate.py); <= 2 DMM channels per state; one device uses integer qubit ids incl. the falsy 0.",
         "DESIGN.md §3 C13",
@@ -119,7 +119,7 @@ CLAIMS = {
         "every limit => accepted and scheduled unchanged (or only lengthened to the next clock multiple with the same defining "
         "parameters). Monitor: every pulse slot of every state of a depth 2-4 BFS on four worlds with / without limits; for every accepted "
         "transition ending at E the same call is re-issued with max_sequence_duration = E (must be accepted) and E-1 (must be "
-        "refused). Two detuning maps of different largest weight configured on one DMM id, with detunings between the two per-atom limits. An SLM mask on a DMM whose clock / minimum / maximum duration differ from the Global channel's (the mask's automatic pulse must respect the DMM's own limits). Minimum-average x lengthened-duration grid (the pulse that is scheduled is judged), and histories in which a pulse at a limit is followed by its near twin (within Pulse.__eq__'s tolerance) outside the limit. After a pulse was accepted the caller edits in place every array it can read from it: the scheduled pulse stays the validated one.",
+        "refused). Two detuning maps of different largest weight configured on one DMM id, with detunings between the two per-atom limits. An SLM mask on a DMM whose clock / minimum / maximum duration differ from the Global channel's (the mask's automatic pulse must respect the DMM's own limits). Minimum-average x lengthened-duration grid (the pulse that is scheduled is judged), and histories in which a pulse at a limit is followed by its near twin (within Pulse.__eq__'s tolerance) outside the limit. After a pulse was accepted the caller edits in place every array it can read from it: the scheduled pulse stays the validated one. Every parametric waveform with its optional parameters (Kaiser beta, interpolation times, interpolator and the interpolator's own options: 12 option sets) as amplitude and as detuning at 4-8 durations off the clock (thorough: 3 clocks): what is scheduled equals the same waveform, options included, defined at the lengthened duration.",
         "Detuning values within 1e-6 of a limit are a don't-care band; custom / composite waveforms may be refused for "
         "non-clock-multiple durations; waveform samples trusted (C16).",
         "DESIGN.md §3 C01",
@@ -166,7 +166,7 @@ CLAIMS = {
     "C08": (
         'exploration',
         'exhaustive program x deviation enumeration (ProgX): skeleton programs with every subset of numeric argument positions replaced by variable expressions; template.build(values) vs direct construction compared on canonical snapshots',
-        "3.8k cases: 7 skeleton programs (all waveform classes, delays, phase shifts, EOM with drift correction, DMM, index targeting, XY; 6-12 numeric positions each) x every subset of positions turned into variable expressions (14 kinds: scalar, array item, 2v, v+1, -v, v/2, v**2, abs, sqrt, sin, floor, ceil, round, nested; whole-array variables for interpolation points), every kind at every single position and every kind pair on two positions; each template is built for assignments A, B in the orders A,B,A and B,A,A, after a failed build, and compared with the same calls issued directly on evaluated values (second pass: values handed over as caller-owned arrays edited in place); the template's full snapshot (incl. stored calls) must be unchanged by every build; every subset template is also built on a MappableRegister resolved at build time (any prefix of the program concrete); every ordered pair of 17 expression kinds / 5 waveform classes over the SAME variable and constant as two arguments of one template. Mappable registers: 3 unsorted declared-id orders x every injective mapping of 1-3 ids onto 4 traps x every mapping insertion order x every index: declared order, trap positions, index-based targeting and equality with direct construction on the concrete register. Whole-array variables read through a caller-owned index list which the caller reverses after writing the template. Rounding at exact ties (round half to even) and array literals as operands (scalar x array, array x array, array + array). All operators and functions of parametrized objects (exp, log, log2, cos, tan, tanh, floor-division and modulo both ways, powers, rounding to a decimal), from_max_val constructors, literal boundary values in the calls that follow the first variable (delay 0, zero phase shift, retarget to the current target). Target-less phase shifts on templates whose build places fewer qubits than declared. Non-integral index values (x.5, x.9999999, 0.8999999999999999, negative, out of range) supplied through a variable, an item, a product, a quotient and a sum to target_index / phase_shift_index on concrete and mappable registers: the build resolves them as the direct call does. Templates built while still being written: every skeleton x every position as a plain variable (alone and with the first position) x a build with the other assignment just before each of its calls, on concrete and mappable registers; the EOM controls both beams and the requested off-detuning lies between two options. Array arguments given as a slice of a longer array variable; a skeleton whose non-parametrized prefix shifts the phase of the last declared id; a non-default interpolator given positionally.",
+        "3.8k cases: 7 skeleton programs (all waveform classes, delays, phase shifts, EOM with drift correction, DMM, index targeting, XY; 6-12 numeric positions each) x every subset of positions turned into variable expressions (14 kinds: scalar, array item, 2v, v+1, -v, v/2, v**2, abs, sqrt, sin, floor, ceil, round, nested; whole-array variables for interpolation points), every kind at every single position and every kind pair on two positions; each template is built for assignments A, B in the orders A,B,A and B,A,A, after a failed build, and compared with the same calls issued directly on evaluated values (second pass: values handed over as caller-owned arrays edited in place); the template's full snapshot (incl. stored calls) must be unchanged by every build; every subset template is also built on a MappableRegister resolved at build time (any prefix of the program concrete); every ordered pair of 17 expression kinds / 5 waveform classes over the SAME variable and constant as two arguments of one template. Mappable registers: 3 unsorted declared-id orders x every injective mapping of 1-3 ids onto 4 traps x every mapping insertion order x every index: declared order, trap positions, index-based targeting and equality with direct construction on the concrete register. Whole-array variables read through a caller-owned index list which the caller reverses after writing the template. Rounding at exact ties (round half to even) and array literals as operands (scalar x array, array x array, array + array). All operators and functions of parametrized objects (exp, log, log2, cos, tan, tanh, floor-division and modulo both ways, powers, rounding to a decimal), from_max_val constructors, literal boundary values in the calls that follow the first variable (delay 0, zero phase shift, retarget to the current target). Target-less phase shifts on templates whose build places fewer qubits than declared. Non-integral index values (x.5, x.9999999, 0.8999999999999999, negative, out of range) supplied through a variable, an item, a product, a quotient and a sum to target_index / phase_shift_index on concrete and mappable registers: the build resolves them as the direct call does. Templates built while still being written: every skeleton x every position as a plain variable (alone and with the first position) x a build with the other assignment just before each of its calls, on concrete and mappable registers; the EOM controls both beams and the requested off-detuning lies between two options. Array arguments given as a slice of a longer array variable; a skeleton whose non-parametrized prefix shifts the phase of the last declared id; a non-default interpolator given positionally. Collections of indices that hold variables (list / tuple / set x 5 contents x concrete / mappable x positional / keyword; the whole array variable as control) built vs direct (known finding: they never build).",
         'Assignments restricted to those the direct construction accepts; phase-reference entries of unmapped qubits are ignored (unobservable).',
         'DESIGN.md §3 C08',
     ),
